@@ -185,6 +185,9 @@ def run(ctx):
     core.merge(ctx, parts)
     ctx.model.calls += ctx.hist.pop('model_driver_requests', 0)
     witnesses(ctx)
+    # members that share a name and a referenced type, each with its own use (SIZE / OPTIONAL / DEFAULT / tag): the compiled-type cache
+    from .. import aliasfam
+    aliasfam.run_c01(ctx, ctx.rng, ctx.n(40, 600), impl, ['ber', 'der', 'per', 'uper', 'oer'], py_equal)
 
 
 WITNESSES = [
